@@ -168,6 +168,20 @@ func runC08(r *Rand, tier string, o *Out) {
 			}
 		}
 	}
+	// raw data — lists of bytes, alone, last in a tuple, in a map, in a list — cut inside the bytes
+	for _, sg := range []string{"[C]", "[c]", "(s[C])", "{s[C]}", "[[C]]", "(i[C])<A,a,b>", "[b]"} {
+		t := parseSigT(sg)
+		for n := 0; n < 3; n++ {
+			v := genTVal(r, t, 2)
+			enc := encD(t, v)
+			if len(enc) <= 4 {
+				continue
+			}
+			sigh := hx([]byte(sg)) + " "
+			check("reader", "signature-driven reader, raw data", "rd.read", sigh, enc, "")
+			check("reflect", "reflection decoder, raw data", "dec.reflect", sigh, enc, "")
+		}
+	}
 	for i := 0; i < rounds; i++ {
 		// typed data of a random signature: signature-driven reader and reflection decoder
 		t := genCodecSig(r, 1+r.Intn(3), false)
